@@ -59,7 +59,7 @@ def run(spec, rec):
         run_api(spec, rec, dadi, Numerics, seed)
 
 
-def _make_model(dadi, xmap, coefs, log, as_spectrum, carry_x, pop_ids, calls):
+def _make_model(dadi, xmap, coefs, log, as_spectrum, carry_x, pop_ids, calls, decoy_x=False):
     def model(scale, pts):
         x = xmap[pts]
         val = sum(c * x ** d for d, c in enumerate(coefs)) * 1.0
@@ -71,6 +71,10 @@ def _make_model(dadi, xmap, coefs, log, as_spectrum, carry_x, pop_ids, calls):
             fs = dadi.Spectrum(val, mask_corners=False, pop_ids=pop_ids)
             if carry_x:
                 fs.extrap_x = x
+            elif decoy_x:
+                # the result carries an x of its own (as anything built by from_phi does) that is NOT the variable the values are
+                # polynomial in: an explicit extrap_x_l takes precedence over it
+                fs.extrap_x = 1.0 / pts
             return fs
         if carry_x:
             class A(np.ndarray):
@@ -129,10 +133,11 @@ def run_poly(spec, rec, dadi, Numerics, seed):
         if not rec.case("k%d-%d" % (k, ci), desc, nontrivial=(k >= 2 and float(np.abs(coefs[-1]).max()) > 0)):
             continue
         calls = []
-        model = _make_model(dadi, xmap, coefs, log, as_spectrum, carry_x, pop_ids, calls)
+        decoy_x = as_spectrum and not carry_x and ci % 2 == 1
+        model = _make_model(dadi, xmap, coefs, log, as_spectrum, carry_x, pop_ids, calls, decoy_x=decoy_x)
         x_l = None if carry_x else [xmap[p] for p in pts_l]
         mk = Numerics.make_extrap_log_func if log else Numerics.make_extrap_func
-        tags = {"k": k, "log": log, "mixed_sign": mixed_sign, "int_x": int_x}
+        tags = {"k": k, "log": log, "mixed_sign": mixed_sign, "int_x": int_x, "results_carry_other_x": decoy_x}
         site = "make_extrap_log_func" if log else "make_extrap_func"
         ok, got = rec.noraise("extrap-returns", lambda: mk(model, extrap_x_l=x_l)(1.0, pts_l), site=site, tags=tags)
         rec.hit("arm-k%d" % k)
